@@ -183,6 +183,8 @@ MatJobFails(C, j, mom, J, O) ==
             /\ RangeA(J.ids) \subseteq MatIds(op, C.shape, C.dim, C.class, C.test, C.trial),
             "MACHINERY:JobNotInCatalogue", j, ""),
        RouteFails(C, j, J, O),
+       \* the matrix-free route overwrites its output vector: alpha * A x whatever the vector contained
+       IF "apply" \in RangeA(J.routes) THEN Fail(RepeatSemantics("apply") = "overwrite" /\ O.applyrep.within, "RepeatOverwrites", j, "apply") ELSE {},
        IF same /\ IsSymmetric(op) THEN Fail(O.sym.within, "Symmetric", j, "") ELSE {},
        IF KernelTrial(op) THEN Fail(O.kert, "KernelConst", j, "trial") ELSE {},
        IF KernelTest(op) THEN Fail(O.kers, "KernelConst", j, "test") ELSE {},
@@ -238,7 +240,28 @@ GdJobFails(C, j, J, O) ==
          "MACHINERY:JobNotInCatalogue", j, ""),
     Fail(Len(O.sc) = Len(J.scales), "MACHINERY:ScalesNotExecuted", j, ""),
     UNION {Fail(O.sc[k].b, "GradPresIsTestDeriv", j, "gpdv") \cup Fail(O.sc[k].adj, "GradDivAdjoint", j, "gpdv")
-           \cup Fail(O.sc[k].g, "GradOperatorIsAdjoint", j, "gradop") : k \in 1..Len(O.sc)} }
+           \cup Fail(O.sc[k].g, "GradOperatorIsAdjoint", j, "gradop")
+           \* a repeated call into the filled matrices: these routes overwrite, the result must be reproduced
+           \cup Fail(\A r \in RangeA(J.routes) : RepeatSemantics(r) = "overwrite" => \E q \in 1..Len(O.sc[k].rep) : O.sc[k].rep[q].r = r,
+                     "MACHINERY:RepeatNotExecuted", j, "")
+           \cup UNION {Fail(O.sc[k].rep[q].same, "RepeatOverwrites", j, O.sc[k].rep[q].r) : q \in 1..Len(O.sc[k].rep)}
+           : k \in 1..Len(O.sc)} }
+
+\* Burgers parameter combinations
+BParJobFails(C, j, J, O) ==
+  UNION {
+    Fail(C.test = C.trial /\ BParOK(J, C.shape, C.dim, C.class, C.test), "MACHINERY:JobNotInCatalogue", j, ""),
+    RouteFails(C, j, J, O),
+    UNION {LET hit == {k \in 1..Len(O.sum) : O.sum[k].r = J.routes[q]} IN
+           IF hit = {} THEN Fail(FALSE, "MACHINERY:RouteNotExecuted", j, J.routes[q])
+           ELSE Fail(\A k \in hit : O.sum[k].within, "BurgersSumOfTerms", j, J.routes[q]) : q \in 1..Len(J.routes)},
+    IF RangeA(J.on) = {"sd"} THEN
+      UNION {LET hit == {k \in 1..Len(O.sd) : O.sd[k].r = J.routes[q]} IN
+             IF hit = {} THEN Fail(FALSE, "MACHINERY:RouteNotExecuted", j, J.routes[q])
+             ELSE UNION {Fail(O.sd[k].sym, "SdSymmetric", j, J.routes[q]) \cup Fail(O.sd[k].ker, "SdKernelConst", j, J.routes[q])
+                         \cup Fail(O.sd[k].pos, "SdPositive", j, J.routes[q]) \cup Fail(O.sd[k].lin, "SdLinearInDelta", j, J.routes[q])
+                         : k \in hit} : q \in 1..Len(J.routes)}
+    ELSE {} }
 
 Verdict(C) ==
   IF ~ClassOK(C) THEN Fail(FALSE, "MACHINERY:MeshClass", -1, C.class)
@@ -252,10 +275,11 @@ Verdict(C) ==
        \cup UNION {CASE C.jobs[j].spec.k = "mat" -> MatJobFails(C, j, mom, C.jobs[j].spec, C.jobs[j].obs)
                      [] C.jobs[j].spec.k = "vec" -> VecJobFails(C, j, mom, C.jobs[j].spec, C.jobs[j].obs)
                      [] C.jobs[j].spec.k = "blk" -> BlkJobFails(C, j, C.jobs[j].spec, C.jobs[j].obs)
-                     [] C.jobs[j].spec.k = "gd" -> GdJobFails(C, j, C.jobs[j].spec, C.jobs[j].obs) : j \in 1..Len(C.jobs)}
+                     [] C.jobs[j].spec.k = "gd" -> GdJobFails(C, j, C.jobs[j].spec, C.jobs[j].obs)
+                     [] C.jobs[j].spec.k = "bpar" -> BParJobFails(C, j, C.jobs[j].spec, C.jobs[j].obs) : j \in 1..Len(C.jobs)}
 
-NIds(C) == SumA([j \in 1..Len(C.jobs) |-> IF C.jobs[j].spec.k \in {"blk", "gd"} THEN 0 ELSE Len(C.jobs[j].obs.ids)])
-NUndec(C) == SumA([j \in 1..Len(C.jobs) |-> IF C.jobs[j].spec.k \in {"blk", "gd"} THEN 0
+NIds(C) == SumA([j \in 1..Len(C.jobs) |-> IF C.jobs[j].spec.k \in {"blk", "gd", "bpar"} THEN 0 ELSE Len(C.jobs[j].obs.ids)])
+NUndec(C) == SumA([j \in 1..Len(C.jobs) |-> IF C.jobs[j].spec.k \in {"blk", "gd", "bpar"} THEN 0
                     ELSE Cardinality({k \in 1..Len(C.jobs[j].obs.ids) : ~C.jobs[j].obs.ids[k].dec})])
 
 CEmit == LET C == Cases[ci] IN
